@@ -307,6 +307,40 @@ func readerOrderRule(r *core.Report, rule string, keys ...string) {
 				}
 				rn := g.NodeOf(rs.X.Pos())
 				ok2, why := orderedSlice(p, f, so, rn, token.GTR, 0)
+				if !ok2 && f != anchor {
+					// the helper builds the list in the order of a slice it is handed: the order is established by the caller
+					for pi := 0; f.ParamObj(pi) != nil; pi++ {
+						if types.Object(f.ParamObj(pi)) != so {
+							continue
+						}
+						ai := anchor.Pkg.TypesInfo
+						ag := p.Graph(anchor)
+						nCalls, allOrdered := 0, true
+						for _, cn := range stmtNodes(ag) {
+							for _, c := range nodeCalls(cn) {
+								if fo := core.Callee(ai, c); fo == nil || p.ByObj[fo.Origin()] != f || pi >= len(c.Args) {
+									continue
+								}
+								nCalls++
+								arg := core.Unparen(c.Args[pi])
+								okArg := false
+								if ac, isCall := arg.(*ast.CallExpr); isCall {
+									if afo := core.Callee(ai, ac); afo != nil {
+										if ah := p.ByObj[afo.Origin()]; ah != nil && ah.Body != nil {
+											okArg, _ = returnsOrdered(p, ah, token.GTR, 0)
+										}
+									}
+								} else if ao := core.ObjOf(ai, arg); ao != nil {
+									okArg, _ = orderedSlice(p, anchor, ao, cn, token.GTR, 0)
+								}
+								allOrdered = allOrdered && okArg
+							}
+						}
+						if nCalls > 0 && allOrdered {
+							ok2, why = true, ""
+						}
+					}
+				}
 				if !ok2 {
 					why = "the reader list is not built from a slice known to be ordered newest first: " + why
 				}
@@ -1061,6 +1095,100 @@ func rangeSelectionInclusive(r *core.Report, rule string) {
 			}
 		}
 		if n > 0 || depth >= 2 {
+			return n
+		}
+		// the selection written as a predicate that is handed to a filtering helper:
+		//   inRange := func(e *Epoch) bool { return e.Epoch() >= startEpoch && e.Epoch() <= endEpoch };  list := filtered(inRange)
+		for _, lit := range fn.Lits {
+			if lit.Type.Results == nil || len(lit.Type.Results.List) != 1 || len(lit.Body.List) != 1 {
+				continue
+			}
+			rs, isRet := lit.Body.List[0].(*ast.ReturnStmt)
+			if !isRet || len(rs.Results) != 1 {
+				continue
+			}
+			if t := info.TypeOf(rs.Results[0]); t == nil || !types.Identical(t.Underlying(), types.Typ[types.Bool]) {
+				continue
+			}
+			nb, bad := 0, ""
+			for _, cj := range conjuncts(rs.Results[0]) {
+				be, ok := core.Unparen(cj).(*ast.BinaryExpr)
+				if !ok || (!mentionsAny(info, be.X, tb, false) && !mentionsAny(info, be.Y, tb, false)) {
+					continue
+				}
+				switch be.Op {
+				case token.LEQ, token.GEQ:
+					nb++
+				case token.LSS, token.GTR:
+					bad = core.ExprStr(cj)
+				}
+			}
+			if nb == 0 && bad == "" {
+				continue
+			}
+			// the predicate is used: handed to a call whose callee keeps an element only when the predicate accepts it
+			used := false
+			bound := types.Object(nil)
+			ast.Inspect(fn.Body, func(m ast.Node) bool {
+				if as, ok := m.(*ast.AssignStmt); ok {
+					for i, rhs := range as.Rhs {
+						if core.Unparen(rhs) == ast.Expr(lit.Lit) && i < len(as.Lhs) {
+							bound = core.ObjOf(info, as.Lhs[i])
+						}
+					}
+				}
+				return true
+			})
+			for _, c := range core.CallsIn(fn.Body, false) {
+				for ai, a := range c.Args {
+					if core.Unparen(a) != ast.Expr(lit.Lit) && (bound == nil || core.ObjOf(info, a) != bound) {
+						continue
+					}
+					fo := core.Callee(info, c)
+					if fo == nil {
+						continue
+					}
+					h := p.ByObj[fo.Origin()]
+					if h == nil || h.Body == nil || h.ParamObj(ai) == nil {
+						continue
+					}
+					hi := h.Pkg.TypesInfo
+					hg := p.Graph(h)
+					for _, hn := range stmtNodes(hg) {
+						has, isA := hn.Ast.(*ast.AssignStmt)
+						if !isA || len(has.Rhs) != 1 {
+							continue
+						}
+						if ac, isC := core.Unparen(has.Rhs[0]).(*ast.CallExpr); isC && core.BuiltinName(hi, ac) == "append" {
+							for _, fc := range hg.FactsAt(hn) {
+								if core.Mentions(hi, fc.Expr, h.ParamObj(ai)) {
+									used = true
+								}
+							}
+							for _, d := range hg.Dominators(hn) {
+								if d.Kind == core.KEdge && d.Ast != nil && core.Mentions(hi, d.Ast, h.ParamObj(ai)) {
+									used = true
+								}
+							}
+						}
+					}
+				}
+			}
+			if !used {
+				continue
+			}
+			n++
+			k := fmt.Sprintf("%s#selection-includes-both-bounds@%d", fn.Key, n)
+			switch {
+			case bad != "":
+				r.Violation(rule, k, pos(r, rs), "an epoch is kept only under the strict comparison ["+bad+"] with a bound of the range: the epoch whose boundary slot equals that bound is dropped and the transactions of that slot are missing from the answer")
+			case nb >= 2:
+				r.OK(rule, k, pos(r, rs), "both bounds of the range are compared inclusively (selection predicate handed to the filtering helper)")
+			default:
+				r.Undecided(rule, k, pos(r, rs), "only one bound of the range is compared where an epoch is selected")
+			}
+		}
+		if n > 0 {
 			return n
 		}
 		// the selection may live in a helper that receives values derived from the bounds
